@@ -144,7 +144,11 @@ NF_strip ==
     /\ \A i \in 1..(NT - 1) : (IsPunct(i, 40) /\ IsWs(i + 1)) => NearComment(i)
     /\ \A i \in 2..NT : (IsPunct(i, 41) /\ IsWs(i - 1)) => NearComment(i)
 IsOpTok(i) == Toks[i].k = "op"
-NF_ops == \A i \in 1..NT : IsOpTok(i) => (i > 1 /\ IsWs(i - 1) /\ i < NT /\ IsWs(i + 1))
+\* with strip_whitespace also requested the blank after `(` / before `)` is removed again: a unary sign
+\* directly inside a parenthesis is exempt on that side
+NF_ops == \A i \in 1..NT : IsOpTok(i) =>
+             /\ (i > 1 /\ (IsWs(i - 1) \/ (IsTrue("strip_whitespace") /\ IsPunct(i - 1, 40))))
+             /\ (i < NT /\ (IsWs(i + 1) \/ (IsTrue("strip_whitespace") /\ IsPunct(i + 1, 41))))
 
 \* reindent: clause keywords start their own line; no line ends in a blank
 UpperVal(i) == [j \in 1..Len(Toks[i].val) |-> UpperC(Toks[i].val[j])]
